@@ -6,7 +6,7 @@ there - the standing proof that the check is not vacuous."""
 PLAN = {
     "C01": dict(
         quick=[("lit_finish_exit", dict(shuffle=8)), ("lit_foreign_finish", dict(cap=1000, shuffle=6)), ("lit_child_other", dict(cap=1000, shuffle=6)), "lit_local_scope",
-               ("lit_spawn_sweep", dict(cap=1000, shuffle=6)), ("par4", dict(shuffle=4)), ("over5_d", dict(cap=600)), ("smp_mixed", dict(cap=1500)), ("tree4", dict(cap=1500)), ("over_recover", dict(cap=1200)),
+               ("lit_spawn_sweep", dict(cap=1000, shuffle=6)), ("par4", dict(shuffle=4)), ("over5_d", dict(cap=600)), ("smp_mixed", dict(cap=1500)), ("tree4", dict(cap=1500)), ("over_recover", dict(cap=800)),
                ("stress:tree4", dict(rounds=200, threads=6)), ("stress:over5_d", dict(rounds=150, threads=4, cfg=dict(K=2))), "burst:9000", "overlap:1"],
         thorough=["lit_finish_exit", "lit_foreign_finish", "lit_child_other", "lit_local_scope", "lit_attach_other", "lit_spawn_sweep", "par4", "par5",
                   "over5_d", "tree5", ("sim_par3", dict(cap=6000)), ("stress:tree4", dict(rounds=2000, threads=6)), "burst:9000", "overlap:1"],
@@ -55,7 +55,7 @@ PLAN = {
     "C09": dict(
         quick=[("over5_d", dict(cap=800, shuffle=3)), ("over5_c", dict(cap=800, shuffle=3)), ("lit_overflow_cancel", dict(cap=500, shuffle=6)),
                ("lit_overflow_finish", dict(cap=500, shuffle=4)), ("lit_overflow_finish_c", dict(cap=500, shuffle=4)),
-               ("over_recover", dict(cap=1500)), ("qlimit5", dict(cap=4000)), ("qlimit_with", dict(cap=2500)), ("scope_q1", dict(cap=1500)), ("slimit5", dict(cap=3000))],
+               ("over_recover", dict(cap=1000)), ("qlimit5", dict(cap=4000)), ("qlimit_with", dict(cap=2500)), ("scope_q1", dict(cap=1500)), ("slimit5", dict(cap=3000))],
         thorough=["over5_d", "over5_c", "over6_c", "lit_overflow_finish", "lit_overflow_finish_c", "lit_overflow_cancel", "over_recover", "qlimit5", "qlimit_with", "slimit5"],
         vacuity=[("over5_d", ["FixForceStart"]), ("over5_d", ["FixFifo"])],
     ),
